@@ -408,6 +408,15 @@ func (env *Zlisp) ImportBaseTypes() {
 
 	for _, name := range sortedTypeNames(GoStructRegistry.Userdef) {
 		e := GoStructRegistry.Userdef[name]
+		// Only the types the host program registered from Go. The
+		// registry also holds what scripts of other interpreters
+		// declared (struct, defmap) and the slice and pointer types
+		// derived on demand from values: binding those too made a new
+		// interpreter differ with what ran before it in the process
+		// (which names are defined, and every symbol number after).
+		if !e.hasShadowStruct {
+			continue
+		}
 		// The registry is process-wide, and every record type name ever
 		// used by any interpreter is registered in it, "hash", "field"
 		// and "msgmap" included. Never let such an entry shadow the
